@@ -66,7 +66,7 @@ def nontrivial(case, ob):
 def check_obs(case, ob):
     if ob["venc"] != case["v"]:
         return "value description %r re-encodes as %r" % (case["v"], ob["venc"])
-    if ob["fast"] != pv.is_fast(case["d"]):
+    if ob["fast"] != pv.is_fast(case["d"]) and '"name"' not in json.dumps(case["d"]):   # Instance("Name") is fast once resolved
         return "fast descriptor presence of %s: implementation %r, harness %r" % (
             pv.shape(case["d"]), ob["fast"], pv.is_fast(case["d"]))
     return None
@@ -87,6 +87,11 @@ def corpus():
     for v in (["PInt", 1], ["PInt", 5], S("fill"), ["PFloat", F(2.0)], ["PBool", True]):                  # enum, converter, enum
         cs.append((two_enums, v))
     cs.append((["DCompound", [["DEnum", [S("auto"), S("none")]], ["DCast", "CTStr"], ["DEnum", [["PNone"]]]]], ["PNone"]))
+    for an in (True, False):                                                # proxies; Instance(K)(allow_none=...) (F20)
+        for d in (["DInstance", 100, an, False], ["DInstance", 100, an, False, "clone"]):
+            for v in (["PProxy", 100, 1], ["PProxy", 101, 1], ["PProxy", 102, 1], ["PNone"], ["PObj", 101, 1]):
+                cs.append((d, v))
+                cs.append((["DCompound", [d, ["DStr"]]], v))
     for an in (True, False):                                                                               # F18
         cs.append((["DInstance", 0, an, False], ["PNone"]))
         cs.append((["DInstance", 0, an, False], ["PInt", 1]))
@@ -105,6 +110,8 @@ def gen_cases(ctx, rnd):
     quick = ctx.tier == "quick"
     cases = corpus()
     leaves = pv.fast_leaves(True) + [["DModule"], ["DTuple", []]]
+    # construction variants (Enum(a, b) / Enum(dflt, [..]) / Enum((..)), Range with one int bound, Instance("Name"))
+    leaves = leaves + [w for d in leaves for w in pv.variants(d)]
     # every fast leaf configuration x the whole value lattice
     atoms = pv.ATOMS
     for d in leaves:
